@@ -175,6 +175,33 @@ def composed_programs(r, n):
     return [(gen.tt(p), gen.tt(env)) for p in progs]
 
 
+def algebraic_programs(r, n):
+    """n-ary operators whose running result passes through an algebraically special value (0, -1, 1, the
+    identity, an 'absorbing' element, a sign change, a length boundary) BEFORE the last argument: a short-cut
+    taken at such a value is right for some operators and wrong for others."""
+    P = []
+
+    def rnd():
+        k = r.random()
+        if k < 0.4:
+            return r.randrange(-300, 300)
+        if k < 0.7:
+            return r.choice([1, -1]) * r.getrandbits(r.choice([8, 15, 16, 31, 32, 63, 64, 65, 127, 128, 200]))
+        return r.choice([0, 1, -1, 0x7f, 0x80, -0x80, -0x81, 0xff, 0x100, 2 ** 31, -2 ** 31, 2 ** 63, 2 ** 64 - 1])
+    for _ in range(n):
+        x, y, z = rnd(), rnd(), rnd()
+        nx = -x - 1
+        shapes = [[x, nx, y], [x, nx, y, z], [-1, y], [-1, y, z], [x, x, y], [0, y], [0, y, z], [x, -x, y], [x, 0, y], [1, y, z], [x, nx],
+                  [-1, -1, y], [y, x, nx, z], [y, x, nx], [x, y, nx, z], [x, -1, y], [x, 1, y], [x, y, 0, z], [x, y ^ x ^ -1, y, z], [x & y, x, y, z]]
+        code = r.choice([16, 17, 18, 24, 25, 26, 24, 25, 26])
+        P.append(op(code, *[q(i2a(v)) for v in r.choice(shapes)]))
+        if r.random() < 0.25:      # the same through non-canonical operands
+            P.append(op(code, *[q((b"\x00" if v >= 0 else b"\xff") + i2a(v)) for v in r.choice(shapes)]))
+        if r.random() < 0.2:
+            P.append(op(r.choice([33, 34]), *[q(i2a(v)) for v in r.choice(shapes)]))
+    return [(gen.tt(p), gen.tt(b"")) for p in P]
+
+
 UNKNOWN_OPCODES = None
 
 
